@@ -78,13 +78,22 @@ def call_shape(chk):
     fns = [K, K.Inner, func, dict, sorted, collections.OrderedDict, Carrier]
     nprints = 0
     bound = []
-    for rep in range(400 if q else 8000):
+    # the same value (object) at several argument positions: the printers of None, Ellipsis, True ... return one shared
+    # document each, and the same list object may be passed twice
+    shared = [1, 2]
+    repeats = []
+    for x in (None, Ellipsis, True, 0, 'a', shared, (), 1.5):
+        repeats += [([x, x], []), ([x, 1, x], []), ([1, x, x], []), ([x, x], [('k', x)]), ([], [('a', x), ('b', x)]), ([x], [('k', x)])]
+    for rep in range((400 if q else 8000) + len(repeats)):
         fn = rng.choice(fns)
         na = rng.choice([0, 1, 1, 2, 3])
         nk = rng.choice([0, 0, 1, 2, 3])
         args = [rng.choice(ARGS) for _ in range(na)]
         names = rng.sample(['alpha', 'b', 'key', 'zz', 'a1'], nk)
         kwargs = [(n, rng.choice(ARGS)) for n in names]
+        if rep < len(repeats):
+            args, kwargs = list(repeats[rep][0]), list(repeats[rep][1])
+            na, nk = len(args), len(kwargs)
         alt = rng.random() < 0.6
         kwform = rng.choice(['pairs', 'od', 'dict', 'zip', 'gen', 'iter', 'items', 'tuple'])
         com = {}
@@ -141,7 +150,7 @@ def call_shape(chk):
                 chk.nontrivial(out)
     can = []
     for c in cases[:: max(1, len(cases) // 15)][:15]:
-        if len(c['val'][2]) >= 2 and c['val'][2][0] != c['val'][2][1]:
+        if len(c['val'][2]) >= 2 and list(reversed(c['val'][2])) != list(c['val'][2]):
             k = dict(c)
             k['id'] = len(cases) + len(can) + 1
             k['val'] = ['call', c['val'][1], list(reversed(c['val'][2])), c['val'][3]]
